@@ -166,17 +166,69 @@ def _bounds_of(rng, kind, v0):
     return [-INF, INF]
 
 
-def make_case(rng, method, nk, lk):
+BOUND_PATTERNS = ["lower-only-all", "upper-only-all", "one-lower", "one-upper", "lower-and-upper-on-different-variables",
+                  "all-finite", "fixed-variable-only", "free-variables-only"]
+
+
+def _pattern_bounds(rng, pattern, x0, free):
+    """variable bounds of a named finite/infinite pattern (None when the pattern needs a mask and there is none)"""
+    n = len(x0)
+    lower, upper = [-INF] * n, [INF] * n
+    lo = [v - rng.choice([0.0, 0.5, 1.0, 2.0]) for v in x0]
+    up = [v + rng.choice([0.0, 0.5, 1.0, 2.0]) for v in x0]
+    fixed = [i for i, f in enumerate(free) if not f]
+    frees = [i for i, f in enumerate(free) if f]
+    if pattern == "lower-only-all":
+        lower = lo
+    elif pattern == "upper-only-all":
+        upper = up
+    elif pattern == "one-lower":
+        i = rng.randrange(n)
+        lower[i] = lo[i]
+    elif pattern == "one-upper":
+        i = rng.randrange(n)
+        upper[i] = up[i]
+    elif pattern == "lower-and-upper-on-different-variables":
+        i = rng.randrange(n)
+        lower[i] = lo[i]
+        upper[(i + 1) % n] = up[(i + 1) % n]
+    elif pattern == "all-finite":
+        lower, upper = lo, up
+    elif pattern == "fixed-variable-only":
+        if not fixed:
+            return None
+        i = rng.choice(fixed)
+        if rng.random() < 0.5:
+            lower[i] = lo[i]
+        else:
+            upper[i] = up[i]
+    elif pattern == "free-variables-only":
+        if not fixed:
+            return None
+        for i in frees:
+            if rng.random() < 0.5:
+                lower[i] = lo[i]
+            else:
+                upper[i] = up[i]
+    return lower, upper
+
+
+def make_case(rng, method, nk, lk, pattern=None, masked=None):
     n_full = rng.choice([2, 3])
     mask = None
-    if rng.random() < 0.5:
+    if (rng.random() < 0.5) if masked is None else masked:
         mask = [rng.random() < 0.6 for _ in range(n_full)]
         if all(mask):
             mask[rng.randrange(n_full)] = False
         if not any(mask):
             mask[rng.randrange(n_full)] = True
     free = [True] * n_full if mask is None else mask
-    x0 = [_dy(rng, -1, 1) for _ in range(n_full)]
+    x0c = [_dy(rng, -1, 1) for _ in range(n_full)]          # the configured initial values
+    # the vector the optimizer is started from: mostly the configured initial values, sometimes an explicit one
+    start = None
+    if rng.random() < 0.35:
+        start = [v + rng.choice([0.5, -0.5, 1.0, -1.25]) for v in x0c]
+    x0 = start if start is not None else x0c
     # variable bounds
     no_bounds_method = method in ("bfgs", "cg", "newton-cg", "cobyla")
     style = rng.random()
@@ -188,6 +240,10 @@ def make_case(rng, method, nk, lk):
                 lower[i] = x0[i] - rng.choice([0.0, 0.5, 1.0, 2.0])
             if k in ("up", "both"):
                 upper[i] = x0[i] + rng.choice([0.0, 0.5, 1.0, 2.0])
+    if pattern is not None:
+        forced = _pattern_bounds(rng, pattern, x0, free)
+        if forced is not None:
+            lower, upper = forced
     # test points (free variables); the first is the initial point moved a little
     nfree = sum(free)
     x0f = [v for v, f in zip(x0, free) if f]
@@ -244,13 +300,13 @@ def make_case(rng, method, nk, lk):
     prob = {"method": method,
             "spelling": rng.choice([method, method.upper(), "scipy/" + method, "SciPy/" + method.title()]
                                    + (["default", "scipy/default"] if method == "slsqp" else [])),
-            "mask": mask, "x0": x0, "lower": lower, "upper": upper, "nl": nl, "lin": lin, "options": options,
+            "mask": mask, "x0": x0c, "start": start, "lower": lower, "upper": upper, "nl": nl, "lin": lin, "options": options,
             "max_iter": rng.randint(1, 50) if rng.random() < 0.6 else None,
             "output_dir": "/tmp/verif_c08_out" if rng.random() < 0.2 else None,
             "types": [rng.choice([1, 2]) for _ in range(n_full)] if mask is None and rng.random() < 0.25 else None,
             "parallel": rng.random() < 0.3,
             "tol": rng.choice([None, None, 1.0 / 1024, 0.0])}
-    return {"prob": prob, "funcs": funcs, "points": points, "kinds": [list(nk), list(lk)]}
+    return {"prob": prob, "funcs": funcs, "points": points, "kinds": [list(nk), list(lk)], "pattern": pattern}
 
 
 def _combos(n):
@@ -260,7 +316,35 @@ def _combos(n):
     return out
 
 
+def in_known_region(prob):
+    """the input region of known finding C08:max-iterations-dropped-without-options"""
+    o = prob["options"]
+    return (o is None or "list" in o) and prob["max_iter"] is not None
+
+
 def gen_cases(tier, rng):
+    """every case inside the known finding's region is followed by a twin that differs only in max_iterations = None:
+    a failing case that matches the known finding is reported as KNOWN-FINDING whatever else is wrong with it, so
+    everything else about the same configuration is judged on the twin, where nothing can hide"""
+    for case in _gen_cases(tier, rng):
+        yield case
+        if in_known_region(case["prob"]):
+            yield {**case, "prob": {**case["prob"], "max_iter": None}, "twin": True}
+
+
+def _gen_cases(tier, rng):
+    # variable bounds of every finite/infinite pattern for every method (also those without bound support), with and
+    # without a mask
+    for method in CONSTRAINED + OTHERS:
+        for pattern in BOUND_PATTERNS:
+            for masked in (False, True):
+                if not masked and pattern in ("fixed-variable-only", "free-variables-only"):
+                    continue
+                for _ in range(1 if tier == "quick" else 6):
+                    nk, lk = ((), ())
+                    if method in CONSTRAINED and rng.random() < 0.5:
+                        nk, lk = rng.choice([(("lo",), ()), ((), ("up",)), (("two",), ("lo",))])
+                    yield make_case(rng, method, nk, lk, pattern=pattern, masked=masked)
     combos = _combos(2 if tier == "quick" else 3)
     for method in CONSTRAINED:
         for nk in combos:
@@ -403,7 +487,7 @@ def run_impl(case):
 def _scale(case, obs):
     vals = [1.0]
     p = case["prob"]
-    for seq in (p["x0"], p["lower"], p["upper"]):
+    for seq in (p["x0"], p.get("start") or [], p["lower"], p["upper"]):
         vals += [abs(v) for v in seq if math.isfinite(v)]
     for pt in obs.get("points", []):
         vals += [abs(v) for v in pt["x"]] + [abs(v) for v in pt["c"]] + [abs(v) for r in pt["vals"] for v in r if math.isfinite(v)]
@@ -455,7 +539,8 @@ def oracle(case, obs):
     if obs["n_other"] or obs["extra_kwargs"]:
         return {"clause": "unexpected-objects-handed-over", "detail": [obs["n_other"], obs["extra_kwargs"]]}
     # -- only the free variables are exposed
-    x0f = [v for v, f in zip(prob["x0"], free) if f]
+    started = prob["start"] if prob.get("start") is not None else prob["x0"]
+    x0f = [v for v, f in zip(started, free) if f]
     if obs["x0"] != x0f:
         return {"clause": "free-variables-exposed", "detail": {"x0": obs["x0"], "expected": x0f}}
     lo = [v for v, f in zip(prob["lower"], free) if f]
@@ -469,7 +554,7 @@ def oracle(case, obs):
     for k, pt in enumerate(obs["points"]):
         x = pt["x"]
         it = iter(x)
-        full = [next(it) if f else v for v, f in zip(prob["x0"], free)]
+        full = [next(it) if f else v for v, f in zip(started, free)]
         conf_must = all(_within(a, v, b) for a, v, b in zip(lo, x, hi))
         if prob["nl"] is not None:
             conf_must &= all(_within(b[0], c, b[1]) for b, c in zip(prob["nl"], pt["c"]))
@@ -534,9 +619,9 @@ def known_signature(case, obs, violation):
     received no options at all (what `return {}` does)."""
     if violation is None or violation.get("clause") != "max_iterations_forwarded":
         return None
-    o = case["prob"]["options"]
-    if (o is None or "list" in o) and case["prob"]["max_iter"] is not None and not obs.get("rejected"):
-        if not any(k in obs["options"] for k in ("maxiter", "maxfun")):
+    if in_known_region(case["prob"]) and not obs.get("rejected"):
+        # `return {}`: nothing but the keys start() adds itself for vectorised differential_evolution
+        if set(obs["options"]) <= {"updating", "workers"}:
             return KNOWN_ID
     return None
 
@@ -559,8 +644,28 @@ def features(case, obs):
             "masked": p["mask"] is not None,
             "options": "None" if o is None else "list" if "list" in o else "{}" if not o["dict"] else "dict",
             "max_iterations": p["max_iter"] is not None,
+            "explicit_start_vector": p.get("start") is not None,
+            "twin_outside_known_region": bool(case.get("twin")),
+            "bound_pattern": _bound_pattern(p),
             "bounds": "none" if not any(math.isfinite(v) for v in p["lower"] + p["upper"]) else
                       "all-finite" if all(math.isfinite(v) for v in p["lower"] + p["upper"]) else "mixed"}
+
+
+def _bound_pattern(p):
+    lo = [math.isfinite(v) for v in p["lower"]]
+    hi = [math.isfinite(v) for v in p["upper"]]
+    free = [True] * len(lo) if p["mask"] is None else p["mask"]
+    if not any(lo) and not any(hi):
+        return "none"
+    if not any(f and (a or b) for f, a, b in zip(free, lo, hi)):
+        return "finite-on-fixed-variables-only"
+    if all(lo) and all(hi):
+        return "all-finite"
+    if not any(hi):
+        return "lower-only (all)" if all(lo) else "lower-only (some)"
+    if not any(lo):
+        return "upper-only (all)" if all(hi) else "upper-only (some)"
+    return "mixed"
 
 
 def shrink(case):
@@ -570,6 +675,8 @@ def shrink(case):
             yield {**case, "prob": {**p, key: val}}
     if p["spelling"] != p["method"]:
         yield {**case, "prob": {**p, "spelling": p["method"]}}
+    if p.get("start") is not None and p["mask"] is None:
+        yield {**case, "prob": {**p, "x0": p["start"], "start": None}}
     if p["lin"] is not None:
         yield {**case, "prob": {**p, "lin": None}, "kinds": [case["kinds"][0], []]}
     if p["nl"] is not None:
@@ -599,7 +706,13 @@ RULE = ("exhaustive over constraint kinds {equality, lower-only, upper-only, two
         "(mostly anchored at the first test point so that feasible and infeasible points both occur), coefficients, variable "
         "bounds with any mix of finite/infinite entries, masks (rows touching fixed variables and rows that survive), method "
         "spelling, options in {None, list, {}, dict with/without an iteration key}, max_iterations, output_dir, variable types, "
-        "parallel, tolerance, and 4 test points. Non-trivial = accepted with at least one constraint row / Bounds / max_iterations, "
+        "parallel, tolerance, and 4 test points; in about a third of the cases the optimizer is started from an explicit vector "
+        "different from the configured initial values. A deterministic stream gives every method (also those without bound "
+        "support) every finite/infinite pattern of variable bounds: all-lower-only, all-upper-only, a single lower / upper bound, "
+        "lower and upper on different variables, all finite, finite on a fixed variable only, finite on the free variables only, "
+        "masked and unmasked. Every case inside the region of the known finding (options not a dict, max_iterations set) is "
+        "followed by a twin with max_iterations = None, so that the rest of that configuration is judged where nothing is "
+        "reported as KNOWN-FINDING. Non-trivial = accepted with at least one constraint row / Bounds / max_iterations, "
         "or rejected with a constraint, bound or requirement present; distinct = distinct full case.")
 ASSUMPTIONS = [
     "equality constraints are those with |upper - lower| < 1e-15 (the literal is re-extracted from the source); generators never produce bounds that differ by less than 1/4 unless equal",
@@ -607,6 +720,7 @@ ASSUMPTIONS = [
     "'retained' linear constraints are the rows whose coefficients on the fixed variables are all zero; rows involving a fixed variable are dropped by the code (the property speaks of retained rows only)",
     "what SciPy can handle is taken from SciPy's own 'cannot handle constraints/bounds' lists in scipy.optimize.minimize (re-extracted on every run) and, on every accepted case, from the warnings of a real scipy.optimize.minimize call with the captured method/bounds/constraint types/options",
     "test constraints are affine with few-bit dyadic data so that feasibility tests are exact in floating point",
+    "the model's x0 is the vector start() is called with (the configured initial values unless the case names an explicit start vector); the fixed variables of a completed point take their values from it",
 ]
 TRUSTED = [
     "the capturing driver standing in for scipy.optimize.minimize / differential_evolution and the probe call of the real scipy.optimize.minimize",
@@ -617,7 +731,10 @@ TRUSTED = [
 MANIFEST = {
     "level_text": ("Machine-checked Coq proof about the executable model of what the SciPy plug-in hands to SciPy (Model/ScipyProblem.v: "
                    "NormalizedConstraints, get_masked_linear_constraints, _initialize_bounds, _parse_options, "
-                   "validate_supported_constraints, the keyword arguments of start()): for every bound-pair kind the configured "
+                   "validate_supported_constraints, the keyword arguments of start()): END TO END, for every accepted problem "
+                   "(well-formed bounds) a point passes the Bounds and the normalised rows / constraint objects handed over iff it "
+                   "satisfies the configured bounds of the free variables, the retained linear rows on the completed vector and the "
+                   "non-linear bounds (C08_handed_equiv_configured, stated on the definitions the checker evaluates); for every bound-pair kind the configured "
                    "bounds hold iff every normalised row is satisfied (= 0 / >= 0), each normalised Jacobian row is the derivative of "
                    "the normalised value with the same sign, masked linear rows are restated exactly on the free variables and the "
                    "dropped rows are exactly those touching a fixed variable, Bounds carry the free entries for any finite/infinite "
@@ -626,7 +743,9 @@ MANIFEST = {
                    "model is tied to the code on every run by an in-Coq correspondence over all kind combinations on the real plug-in."),
     "level_note": ("Trusted: Coq kernel + VM; the translators (method tables, tolerances, iteration-key rule, SciPy's own capability lists); "
                    "the capturing driver. Known finding C08:max-iterations-dropped-without-options (options not a dict) is re-confirmed "
-                   "on every run and reported as KNOWN-FINDING; the model forwards the limit there. Rows of linear constraints that "
+                   "on every run and reported as KNOWN-FINDING; the model forwards the limit there; the signature requires that the back-end "
+                   "received no option at all besides the two keys start() adds for vectorised differential_evolution, and every case "
+                   "of the region has a twin outside it. Rows of linear constraints that "
                    "involve a fixed variable are dropped by the code (not absorbed into the bounds); the property text speaks of "
                    "retained rows only, so this is modelled as is and documented, not alarmed. Equality is the code's 1e-15 test; the "
                    "feasibility theorem assumes bounds are equal or differ by at least that tolerance. All theorems print 'Closed under "
